@@ -118,6 +118,9 @@ def lin_failures(sp, dt, aseed):
             lhs = np.array(op((a * x + y).astype(dt)))
             rhs = a * np.array(op(x)) + np.array(op(y))
         sc = scale * (abs(a) * np.linalg.norm(x) + np.linalg.norm(y)) + 1e-30
+        if lhs.shape == rhs.shape and not np.linalg.norm((lhs - rhs).astype(np.complex128)) <= 10 * tol(dt) * sc:
+            # relative to the operands, not to a cancelling result (e.g. Sum o FiniteDifference is the zero map)
+            sc = max(scale, LO.tree_opscale(sp, dt)) * (abs(a) * np.linalg.norm(x) + np.linalg.norm(y)) + 1e-30
         if lhs.shape != rhs.shape or not np.linalg.norm((lhs - rhs).astype(np.complex128)) <= 10 * tol(dt) * sc:
             out.append("additivity")
     except Exception as e:
